@@ -150,6 +150,7 @@ func concRound(c *core.Ctx, g, maxCalls int, sharedOnly bool) {
 		c.Inconclusive(hist.err)
 		return
 	}
+	reportAliasing(c)
 	p := hist.pool
 	plans := make([][]int, g)
 	hot := c.R.Intn(len(p.Calls))
